@@ -59,7 +59,7 @@ def run_scripts(pid, tag, lines, seed, cfg):
 
 def boundary_histories():
     """fixed honest histories at the boundaries: zero-amount payments (also at zero balances), whole balances either way,
-    a merchant-funded channel, initial balances whose sum exceeds 2^63-1"""
+    a merchant-funded channel, initial balances whose sum exceeds 2^63-1, the full capacity moved at once"""
     I = 2**63 - 1
     def est(cb, mb):
         return [{"act": "reset"}, {"act": "request", "ch": 1, "cb": str(cb), "mb": str(mb)}, {"act": "minit", "ch": 1}, {"act": "deliver", "ch": 1},
@@ -80,7 +80,10 @@ def boundary_histories():
             + seq(I, I, [0, 1, -1, I, -I])
             + seq(I, 1, [0, I, -I, -1])
             + seq(0, 0, [0, 0])
-            + seq(1, I, [1, 0, -I]))
+            + seq(1, I, [1, 0, -I])
+            # the whole capacity 2^63-1 moved in one payment, both ways (accepted amounts of magnitude exactly 2^63-1)
+            + seq(I, 0, [I, -I, I, 0])
+            + seq(0, I, [-I, I, -I, 0, -1]))
 
 
 def campaign(pid, tier, seed, model_cfg, sim_cfg, sim_num, sim_depth, scales, drv_runs, drv_steps, drv_kwargs,
